@@ -61,7 +61,7 @@ func (t *Transaction) Confirm() error {
 
 func (t *Transaction) rollback() {
 	ctx := context.Background()
-	t.transactionManager.Rollback(ctx, t.GetRollbackTransaction())
+	t.transactionManager.Rollback(ctx, t)
 }
 
 func (t *Transaction) StartRollbackTimer() error {
